@@ -848,7 +848,7 @@ func (g *Gen) GenNode(depth int, root bool) *Node {
 		g.genReq(n)
 	case kind == KCustom:
 		n.CustomT = pick(g, []string{"string", "int"}, "ct")
-		n.CustomFn = pick(g, []string{"hashEven", "pass", "fail", "hashEven"}, "cf")
+		n.CustomFn = pick(g, []string{"hashEven", "pass", "fail", "hashEven", "normalize"}, "cf")
 		if n.CustomT == "string" {
 			g.wit[n] = Str(g.stringWitness())
 		} else {
@@ -1276,6 +1276,13 @@ func (g *Gen) altRepr(n *Node, v Val) Val {
 		x := mustInt(v.S, 64)
 		switch c {
 		case 5:
+			if g.p(0.3, "zeropad") { // decimal strings as forms, CSV exports and fixed-width fields write them: 007, -012
+				digits, sign := strings.TrimPrefix(v.S, "-"), ""
+				if x < 0 {
+					sign = "-"
+				}
+				return Str(sign + strings.Repeat("0", g.intn(1, 3, "zeros")) + digits)
+			}
 			return Str(v.S)
 		case 6:
 			return Int(int(x))
@@ -1306,6 +1313,12 @@ func (g *Gen) altRepr(n *Node, v Val) Val {
 		case 5, 6:
 			s := strconv.FormatFloat(f, 'f', -1, 64)
 			if isPlainDecimalFloat(s) {
+				if g.p(0.3, "zeropad") {
+					if strings.HasPrefix(s, "-") {
+						return Str("-" + strings.Repeat("0", g.intn(1, 3, "zeros")) + s[1:])
+					}
+					return Str(strings.Repeat("0", g.intn(1, 3, "zeros")) + s)
+				}
 				return Str(s)
 			}
 			return F64(f)
